@@ -20,7 +20,7 @@ var orderKeyPool = []string{"a", "B", "aa", "Z", "Ã©", "z", "~", "a b", "Ã¿", "ð
 func buildOrdered(keys []string) map[string]interface{} {
 	m := map[string]interface{}{}
 	for _, k := range keys {
-		m[k] = map[string]interface{}{"v": k, "n": map[string]interface{}{"v": k + "/n"}}
+		m[k] = map[string]interface{}{"v": k, "n": map[string]interface{}{"v": k + "/n"}, "l": []interface{}{k + "/l0", k + "/l1"}, "B": []interface{}{k + "/B0"}, "Ã©": []interface{}{k + "/Ã©0", k + "/Ã©1"}}
 	}
 	return m
 }
@@ -35,16 +35,28 @@ var orderShapes = []struct {
 	{"recursive-name", &spec.Path{Root: '$', Steps: []spec.Step{{Kind: spec.KRec}, {Kind: spec.KName, Key: "v"}}}},
 	{"recursive-wildcard", &spec.Path{Root: '$', Steps: []spec.Step{{Kind: spec.KRec}, {Kind: spec.KWild}}}},
 	{"recursive-filter", &spec.Path{Root: '$', Steps: []spec.Step{{Kind: spec.KRec}, {Kind: spec.KFilter, Q: &spec.Query{Op: spec.QExist, P: &spec.Path{Root: '@', Steps: []spec.Step{{Kind: spec.KName, Key: "v"}}}}}}}},
+	{"recursive-index", &spec.Path{Root: '$', Steps: []spec.Step{{Kind: spec.KRec}, {Kind: spec.KUnion, Subs: []spec.Sub{{Kind: spec.SIndex, N: 0}}}}}},
+	{"recursive-slice", &spec.Path{Root: '$', Steps: []spec.Step{{Kind: spec.KRec}, {Kind: spec.KUnion, Subs: []spec.Sub{{Kind: spec.SSlice, Start: nil, End: nil, Step: nil}}}}}},
+	{"nested-recursive-index", &spec.Path{Root: '$', Steps: []spec.Step{{Kind: spec.KName, Key: "wrap"}, {Kind: spec.KRec}, {Kind: spec.KUnion, Subs: []spec.Sub{{Kind: spec.SIndex, N: 1}, {Kind: spec.SIndex, N: 0}}}}}},
 	{"multi-with-wildcard", &spec.Path{Root: '$', Steps: []spec.Step{{Kind: spec.KMulti, Items: []spec.MItem{{Wild: true}, {Key: "?"}}}, {Kind: spec.KName, Key: "v"}}}},
 	{"filter-compare", &spec.Path{Root: '$', Steps: []spec.Step{{Kind: spec.KFilter, Q: &spec.Query{Op: spec.QCmp, Cmp: "!=", LO: spec.Operand{P: &spec.Path{Root: '@', Steps: []spec.Step{{Kind: spec.KName, Key: "v"}}}}, RO: spec.Operand{IsLit: true, Lit: "zz", LitText: "'zz'"}}}, {Kind: spec.KWild}, {Kind: spec.KWild}}}},
 }
+
+var nestedShape = func() int {
+	for i, sh := range orderShapes {
+		if sh.name == "nested-recursive-index" {
+			return i
+		}
+	}
+	return -1
+}()
 
 // C07 â€” result order is deterministic.
 func init() {
 	harness.Register(&harness.Check{
 		ID:    "C07",
 		Level: "exploration",
-		Rule: "case = one key set (2..12 keys from a pool that sorts differently by byte, rune, length and case) x 8 path shapes (wildcard, filter, recursive, multi-name with *); " +
+		Rule: "case = one key set (2..12 keys from a pool that sorts differently by byte, rune, length and case) x 11 path shapes (wildcard, filter, recursive descent followed by name / wildcard / filter / index / slice, also below an object nested directly in an object, multi-name with *); " +
 			"the object is built 3 times with different insertion orders, each shape evaluated repeatedly on each build (20 / 60 repetitions) interleaved with evaluations on " +
 			"bigger and smaller maps that recycle the pooled key buffers; judged: all repetitions identical and equal to the order computed with sort.Strings / pre-order / " +
 			"written order (SPEC), and for the plain wildcard shape to the directly sorted key list; hooks: adversarial key scrambling before the library's sort, key-buffer poison; " +
@@ -61,7 +73,7 @@ func init() {
 				},
 				Run:      func(c *harness.Ctx, k int) { runC07(c, reps) },
 				Finish:   reportHooks,
-				Required: []string{"keys:2", "keys:12", "shape:wildcard", "shape:recursive-name", "shape:filter", "shape:multi-with-wildcard"},
+				Required: []string{"keys:2", "keys:12", "shape:wildcard", "shape:recursive-name", "shape:filter", "shape:multi-with-wildcard", "shape:recursive-index", "shape:nested-recursive-index"},
 			}
 		},
 	})
@@ -89,6 +101,10 @@ func runC07(c *harness.Ctx, reps int) {
 			sort.Sort(sort.Reverse(sort.StringSlice(order)))
 		}
 		builds[b] = buildOrdered(order)
+		if c.K%len(orderShapes) == nestedShape {
+			// the keyed object nested DIRECTLY inside another object (not reached through an array)
+			builds[b] = map[string]interface{}{"wrap": builds[b], "zz": []interface{}{"tail"}}
+		}
 	}
 	// other maps that recycle the pooled key buffers (bigger and smaller key sets)
 	others := []interface{}{buildOrdered(orderKeyPool[:1]), buildOrdered(orderKeyPool), buildOrdered(orderKeyPool[5:9])}
